@@ -54,12 +54,13 @@ case "${1:-}" in
         # thorough: generated search, then coverage-guided libFuzzer campaigns of the same predicate
         harness/target/release/ohv run C04 thorough "${@:3}"; rc=$?
         [ $rc -eq 2 ] && exit 2
-        c1=$(tools/fuzz_campaign.sh parse_total "${VERIF_FUZZ_RUNS:-120000}" 256 8); f1=$?
-        c2=$(tools/fuzz_campaign.sh consistency "${VERIF_FUZZ_RUNS:-120000}" 640 8); f2=$?
+        c1=$(tools/fuzz_campaign.sh parse_total "${VERIF_FUZZ_RUNS:-200000}" 256 8); f1=$?
+        c2=$(tools/fuzz_campaign.sh consistency "${VERIF_FUZZ_RUNS:-200000}" 640 8); f2=$?
         if [ $f1 -eq 2 ] || [ $f2 -eq 2 ]; then echo "$c1"; echo "$c2"; echo "INCONCLUSIVE: fuzz build failed"; exit 2; fi
         tools/fuzz_merge.py "$c1" "$c2"; f3=$?
         echo "[C04:libfuzzer] $c1" >&2; echo "[C04:libfuzzer] $c2" >&2
-        if [ $rc -ne 0 ] || [ $f3 -ne 0 ]; then exit 1; fi
+        if [ $rc -eq 1 ] || [ $f3 -eq 1 ]; then exit 1; fi
+        if [ $f3 -eq 2 ]; then exit 2; fi
         exit 0
         ;;
     *)
